@@ -430,6 +430,8 @@ class Ev:
         raise Unknown("call %s" % fname)
 
     def _method(self, recv, name, args, kw, n):
+        if isinstance(recv, int) and not isinstance(recv, bool) and name == "bit_length" and not args and not kw:
+            return recv.bit_length()
         if isinstance(recv, int) and name == "to_bytes":
             try:
                 return recv.to_bytes(*args, **kw)
